@@ -213,6 +213,9 @@ func argOf(c *ssa.CallCommon, i int) ssa.Value {
 func closureArg(v ssa.Value) *ssa.Function {
 	switch x := v.(type) {
 	case *ssa.MakeClosure:
+		if m := ir.BoundMethod(x); m != nil {
+			return m // a method value: the method itself is the continuation
+		}
 		f, _ := x.Fn.(*ssa.Function)
 		return f
 	case *ssa.Function:
@@ -267,11 +270,15 @@ func closureUses(mc *ssa.MakeClosure) []ssa.Instruction {
 func regionRoot(fn *ssa.Function) *ssa.Function {
 	f := ir.Outermost(fn)
 	for i := 0; i < 8; i++ {
-		site := ir.SingleCallSite(f)
-		if site == nil {
-			return f
+		if site := ir.SingleCallSite(f); site != nil {
+			f = ir.Outermost(site.Parent())
+			continue
 		}
-		f = ir.Outermost(site.Parent())
+		if mv := ir.MethodValueSites(f); len(mv) == 1 && len(ir.StaticCallSites(f)) == 0 {
+			f = ir.Outermost(mv[0].Parent())
+			continue
+		}
+		return f
 	}
 	return f
 }
@@ -295,6 +302,12 @@ func regionOf(root *ssa.Function) []*ssa.Function {
 						add(callee)
 					}
 				}
+				// continuations written as methods of a state struct and passed as method values
+				if mc, ok := in.(*ssa.MakeClosure); ok {
+					if m := ir.BoundMethod(mc); m != nil && ir.InRepo(m) && len(ir.MethodValueSites(m)) == 1 && len(ir.StaticCallSites(m)) == 0 {
+						add(m)
+					}
+				}
 			})
 		}
 	}
@@ -304,7 +317,7 @@ func regionOf(root *ssa.Function) []*ssa.Function {
 
 // onceArgs decodes concurrent.NewOnce(ok, fail) behind a callback argument.
 func (h *H) onceArgs(v ssa.Value) (ok, fail *ssa.Function) {
-	call, isCall := ir.Canon(v).(*ssa.Call)
+	call, isCall := ir.Canon(throughFactory(v)).(*ssa.Call)
 	if !isCall || !h.P.Matches(call.Common(), newOnce) {
 		return nil, nil
 	}
@@ -508,4 +521,52 @@ func bindRegion(root *ssa.Function) func() {
 		}
 	}
 	return ir.Bind(b)
+}
+
+// throughFactory follows a value that is the single result of a call to a repository
+// function with exactly one return statement (a factory / wrapper) to the returned
+// expression, repeatedly. The returned value lives in the factory's own context.
+func throughFactory(v ssa.Value) ssa.Value {
+	for i := 0; i < 3; i++ {
+		c, ok := ir.Canon(v).(*ssa.Call)
+		if !ok {
+			return v
+		}
+		f := c.Call.StaticCallee()
+		if f == nil || f.Blocks == nil || !ir.InRepo(f) || f.Object() == nil || f.Object().Exported() {
+			return v // only extracted (unexported) helpers are looked through, never an API
+		}
+		var rets []*ssa.Return
+		ir.Instrs(f, func(in ssa.Instruction) {
+			if r, ok := in.(*ssa.Return); ok && in.Block() != f.Recover {
+				rets = append(rets, r)
+			}
+		})
+		if len(rets) != 1 || len(rets[0].Results) != 1 {
+			return v
+		}
+		v = rets[0].Results[0]
+	}
+	return v
+}
+
+// valueUses lists the instructions using v and, when v is handed back by an extracted
+// single-call-site function (its only return), the users of that call's value.
+func valueUses(v ssa.Value) []ssa.Instruction {
+	var out []ssa.Instruction
+	for depth := 0; depth < 3 && v != nil && v.Referrers() != nil; depth++ {
+		var next ssa.Value
+		for _, r := range *v.Referrers() {
+			out = append(out, r)
+			if ret, ok := r.(*ssa.Return); ok && len(ret.Results) == 1 {
+				if site := ir.SingleCallSite(ret.Parent()); site != nil {
+					if sv, ok := site.(ssa.Value); ok {
+						next = sv
+					}
+				}
+			}
+		}
+		v = next
+	}
+	return out
 }
